@@ -203,6 +203,49 @@ def poly1305_wrap(chk):
     chk.floor('Poly1305 finalisations', n, 4)
 
 
+def des_ede_schedule(chk):
+    """Triple-DES is encrypt-decrypt-encrypt (ANSI X9.52 / SP 800-67): the middle sub-key schedule is the reversed one; a 16-byte key is
+    K1 | K2 | K1.  Decided by partial evaluation of both key schedules with key_len pinned to 8, 16, 24: the sequence of
+    (unit schedule, reversal, copy) steps with their sub-key offsets, and the returned number of DES instances."""
+    from .. import oblig, fold
+    R = 'des-ede-key-schedule'
+    WANT = {8: ([('unit', 0, 0)], 1),
+            16: ([('unit', 0, 0), ('unit', 128, 8), ('rev', 128), ('copy', 256, 0, 128)], 3),
+            24: ([('unit', 0, 0), ('unit', 128, 8), ('rev', 128), ('unit', 256, 16)], 3)}
+    n = 0
+    for impl in ('des_tab', 'des_ct'):
+        src = 'src/symcipher/%s.c' % impl
+        fn = 'br_%s_keysched' % impl
+        U = oblig.funit(src)
+        if fn not in U.funcs:
+            raise AnalysisBroken('%s vanished' % fn)
+        F = U.func(fn)
+        pl = F.f['params'][2]
+        for klen, (wseq, wret) in sorted(WANT.items()):
+            hy = [dict(kind='assume', n=pl['n'], ty=pl['ty'], pred='eq', value=klen, param=True)]
+            Fo = U.optimise(fn, hy, ('keysched_unit', 'br_des_rev_skey'))
+            seq = []
+            for c in sorted(fold._reach_insts(Fo), key=lambda c: c['id']):
+                if c['op'] != 'call':
+                    continue
+                cal = c.get('callee') or ''
+                if cal == 'keysched_unit':
+                    seq.append(('unit', Fo.addr_of(c['ops'][0])[1], Fo.addr_of(c['ops'][1])[1]))
+                elif cal == 'br_des_rev_skey':
+                    seq.append(('rev', Fo.addr_of(c['ops'][0])[1]))
+                elif cal.startswith('llvm.memcpy') or cal == 'memcpy':
+                    seq.append(('copy', Fo.addr_of(c['ops'][0])[1], Fo.addr_of(c['ops'][1])[1], c['ops'][2]['v'] if c['ops'][2]['k'] == 'c' else None))
+            okr, detr = fold.expect_ret_const(Fo, wret)
+            n += 1
+            inst = '%s: %d-byte key => %s, %d DES instance(s)' % (fn, klen, ' '.join(x[0] for x in wseq), wret)
+            if seq == wseq and okr:
+                chk.ok(R, inst, src)
+            else:
+                chk.violation(R, inst, src, 'steps are %s, returns %s; expected %s: the key schedule no longer implements encrypt-decrypt-encrypt for this key size'
+                              % (seq, detr, wseq), key='%s %s %d' % (R, impl, klen))
+    chk.floor('DES key schedule cases', n, 6)
+
+
 def run(tier):
     chk = report.Check('C12', tier,
                        'Constant tables of the symmetric primitives compared with values generated from their standards (FIPS 197 S-box, inverse '
@@ -309,6 +352,7 @@ def run(tier):
     counter_carry_chains(chk)
     ctr_counter_advance(chk)
     poly1305_wrap(chk)
+    des_ede_schedule(chk)
     from .. import lints as _l
     _l.limb_split_consistent(chk, ['src/symcipher/'])
     return chk.finish()
